@@ -49,7 +49,9 @@ func main() {
 	tlimit := flag.Int("time-limit", 0, "per-harness wall limit in seconds (0 = none)")
 	list := flag.Bool("list", false, "list harness functions and exit")
 	tags := flag.String("tags", "verif,purego,math_big_pure_go", "build tags used to load /repo and std for symbolic execution")
+	stopOnSat := flag.Int("stop-on-sat", 0, "1: end a path at its first refuted assertion (native Assert semantics) instead of continuing under the assumption that it holds")
 	flag.Parse()
+	exec.StopOnSat = *stopOnSat != 0
 
 	t0 := time.Now()
 	os.Setenv("PATH", "/opt/veriftools/go1.26.8/bin:"+os.Getenv("PATH"))
